@@ -266,7 +266,7 @@ func checkFeeds(f lib.Flags, res *lib.Result, drv *lib.Driver) {
 		var err error
 		model, err = drv.AskAll(lines)
 		if err != nil {
-			res.Mismatch(lib.Mismatch{Sig: "driver", Impl: err.Error()})
+			res.Fatalf("feed check: Lean driver failed: %v", err)
 			model = nil
 		}
 	}
@@ -299,6 +299,9 @@ func checkFeeds(f lib.Flags, res *lib.Result, drv *lib.Driver) {
 				if i < len(got) {
 					g = got[i]
 				}
+				if m == "bad-op" {
+					res.Fatalf("feed check: the driver answered bad-op to %q", s[i].line())
+				}
 				if m != g {
 					res.Mismatch(lib.Mismatch{Sig: "feed-model-differs", Input: s, Model: m, Impl: g})
 					pos += len(s) - i - 1
@@ -313,7 +316,7 @@ func checkFeeds(f lib.Flags, res *lib.Result, drv *lib.Driver) {
 		// would take the harness down before the findings are written
 		checkTee(res)
 	} else {
-		res.Note("Tee check skipped: feed.Feed already differs from its reference")
+		res.Fatalf("Tee check skipped: feed.Feed already differs from its reference (a panic in Tee's goroutine would kill the harness)")
 	}
 }
 
